@@ -26,7 +26,7 @@ RULE = ("daily and billing models (parameter-built for every split layout and sh
         "contained at least one row without temperature or without usage.")
 ASSUMPTIONS = ["'has a value' means finite (NaN and +-inf are missing)", "column sums skip missing values, as the documentation's df.sum() does"]
 REQUIRED_REACH = {"post.predict_frame": 60, "clause.rowwise_mask": 40, "clause.sum_identity": 60, "rows.temperature_missing_with_usage": 100,
-                  "rows.usage_missing": 50, "agg.monthly": 6, "agg.bimonthly": 6, "history.after_temperature_only": 12, "frame.usage_supplied_but_no_complete_day": 2, "frame.gas_month_with_zero_usage": 1, "clause.rowwise_mask_aggregated": 12, "model.imported_from_a_2_0_document": 6}
+                  "rows.usage_missing": 50, "agg.monthly": 6, "agg.bimonthly": 6, "history.after_temperature_only": 12, "frame.usage_supplied_but_no_complete_day": 2, "frame.gas_month_with_zero_usage": 1, "clause.rowwise_mask_aggregated": 12, "model.imported_from_a_2_0_document": 6, "frame.handed_over_as_a_baseline_data_object": 12}
 
 VIOL = []
 CUR = {}
@@ -240,8 +240,12 @@ def run_case(spec):
         if gas and spec["with_observed"]:
             I.reach("frame.gas_month_with_zero_usage")
         CUR["no_complete_day"] = bool(spec["with_observed"] and not (np.isfinite(df["temperature"].to_numpy(dtype=float)) & np.isfinite(df["observed"].to_numpy(dtype=float))).any())
+        # predict() accepts baseline-type data objects too (a model evaluated on its own or another baseline): same frame, same clauses
+        as_baseline = bool(spec["with_observed"] and spec["n"] % 3 == 2)
+        if as_baseline:
+            I.reach("frame.handed_over_as_a_baseline_data_object")
         if fam == "billing":
-            data = em.BillingReportingData(df, is_electricity_data=not gas)
+            data = (em.BillingBaselineData if as_baseline else em.BillingReportingData)(df, is_electricity_data=not gas)
             try:
                 p = m.predict(data, ignore_disqualification=True)
             except Exception as e:
@@ -259,7 +263,7 @@ def run_case(spec):
                 keys.add("%s|%s|%s|%s" % (fam, spec.get("split"), "+".join(spec["pattern"]), agg))
         else:
             try:
-                data = em.DailyReportingData(df, is_electricity_data=not gas)
+                data = (em.DailyBaselineData if as_baseline else em.DailyReportingData)(df, is_electricity_data=not gas)
             except ValueError:
                 # so few usage days that the data class takes the set for billing data and refuses it: no frame to judge (the data class's business)
                 I.reach("frame.set_rejected_by_the_data_class")
